@@ -426,6 +426,8 @@ class Gen:
         for i, r in enumerate(roles):
             if i == 0:
                 d = first
+            elif rng.random() < 0.2:
+                d = first          # the very same descriptor under a second role
             else:
                 # same centre; another class / ordering / parity
                 if k == "set_achange":
@@ -548,6 +550,17 @@ class Gen:
                 o[r2.lower()] = model.list_desc(db)
                 if da[1][0] != db[1][0]:
                     out.append(o)
+                # two centres over one and the same atom multiset, parity unspecified
+                lig = [z for z in da[1][1:] if z is not None]
+                if lig:
+                    c2 = lig[0]
+                    dc = (da[0], da[1], None)
+                    dd = (da[0], (c2, *[da[1][0] if z == c2 else z for z in da[1][1:]]), None)
+                    if c2 in m.atoms and da[1][0] in m.atoms:
+                        o = dict(k="set_achange", s=s, broken=None, fleeting=None, formed=None)
+                        o[r1.lower()] = model.list_desc(dc)
+                        o[r2.lower()] = model.list_desc(dd)
+                        out.append(o)
             bs = m.sorted_bonds()
             if len(bs) >= 2:
                 b1, b2 = rng.sample(bs, 2)
